@@ -322,7 +322,7 @@ def rule_matchsrc(ctx):
 
 
 RULES = [
-    ("C18.KWVIEW", 5, common.shared("c03", "rule_kwview", "C18.KWVIEW", keep=lambda o: o.construct.startswith("multipitch."))),
+    ("C18.KWVIEW", 3, common.shared("c03", "rule_kwview", "C18.KWVIEW", keep=lambda o: o.construct.startswith("multipitch."))),
     ("C18.NOMUT", 4, common.shared("c15", "rule_nomut", "C18.NOMUT", keep=lambda o: o.construct.startswith("multipitch."))),
     ("C18.MATCHSRC", 2, rule_matchsrc),
     ("C18.COUNTFORM", 1, rule_countform),
